@@ -13,7 +13,6 @@ Driver for C05.  Case grammar (single spaces, `-` = empty list):
 * `exh <sub> <version> <dataOffset> <cols> <pages> <langs> <rowCount>` — header round trip; answer
   `<dataOffset> <rowCount> <cols> <pages> <langs>` (the public fields)
 * `fname <name hex> <lang code> <start id>` — page file name, as hex
-* `hpath <name hex>` — header path (model-only: the archive lookup is not reachable without an archive)
 -/
 namespace Physis.Driver.C05
 open Physis Physis.Proto Physis.Spec.Excel
